@@ -140,7 +140,7 @@ func (gc *primaryGC) gc(ctx context.Context, lowUsePercent int64, timeLimit time
 	}
 
 	// GC each unvisited file in order.
-	for fileNum := header.FirstFile; fileNum != gc.primary.fileNum; fileNum++ {
+	for fileNum := header.FirstFile; fileNum != gc.primary.currentFileNum(); fileNum++ {
 		if _, ok := gc.visited[fileNum]; ok {
 			continue
 		}
